@@ -134,3 +134,16 @@ Example C16_ex_overflow : exec ADD [VMutez (2 ^ 63 - 1); VMutez 1] = Reject.
 Proof. vm_compute. reflexivity. Qed.
 Example C16_ex_specified : specified EDIV [VMutez 5; VNat 0] = true /\ forallb wf_val [VMutez 5; VNat 0] = true.
 Proof. vm_compute. split; reflexivity. Qed.
+
+(* the whole program  PUSH operands ; OP  (the function the correspondence check compares with the
+   real Interpreter): valid literals give exactly the reference result, an invalid nat / mutez literal
+   (negative, or mutez >= 2^63) makes the program fail *)
+Theorem C16_program_exact : forall o lits r,
+  forallb literal_ok lits = true -> Ref o lits r -> run o lits = r.
+Proof. exact run_exact. Qed.
+Print Assumptions C16_program_exact.
+
+Theorem C16_invalid_literal_rejected : forall o lits,
+  forallb literal_ok lits = false -> run o lits = Reject.
+Proof. exact run_invalid_literal. Qed.
+Print Assumptions C16_invalid_literal_rejected.
